@@ -1,3 +1,4 @@
 pub mod headermap;
 pub mod payload;
 pub mod h1;
+pub mod ws;
